@@ -573,6 +573,18 @@ bool OPNMIDIplay::realTime_NoteOn(uint8_t channel, uint8_t note, uint8_t velocit
         }
 
         prepareChipChannelForNewNote(static_cast<size_t>(c), voices[ccount]);
+
+        {
+            // A chip channel lists a limited number of users. A note that can't be listed must not
+            // refer to the channel (nobody would ever release it): the note is unplaceable then
+            OpnChannel &chosen = m_chipChannels[static_cast<size_t>(c)];
+            OpnChannel::Location loc;
+            loc.MidCh = channel;
+            loc.note = note;
+            if(chosen.users.size() == chosen.users.capacity() && chosen.find_user(loc).is_end())
+                continue;
+        }
+
         adlchannel[ccount] = c;
     }
 
